@@ -145,6 +145,13 @@ func init() {
 		ctx.Res.Rule = "case = (root prefix, separator, tags, sanitizer options, shard count, reporter flavour, a tree of SubScope/Tagged chains of depth 0..6 with metric getters of all four kinds); generated from the seed; non-trivial = at least two calls; distinct by hash of the case"
 		one := func(c *dCase) { derivOne(ctx, c, "C04") }
 		if ctx.Replay != nil {
+			var rp struct {
+				Progs []json.RawMessage `json:"progs"`
+			}
+			if json.Unmarshal(ctx.Replay, &rp) == nil && len(rp.Progs) > 0 {
+				regReplay(ctx, "delivered_name_and_tags_follow_the_derivation")
+				return
+			}
 			var c dCase
 			if err := json.Unmarshal(ctx.Replay, &c); err != nil {
 				fatal(err)
@@ -172,6 +179,10 @@ func init() {
 			c := c04Gen(ctx.R, i)
 			one(&c)
 		}
+		// names and tags of a derivation must also be right when scopes are obtained concurrently
+		// (schedule-controlled registry scenarios: every delivery is checked against the tags of
+		// the derivation it was recorded through; direct predicate)
+		regCrossStream(ctx, ctx.N(150, 3000), "delivered_name_and_tags_follow_the_derivation")
 		ctx.Note("caller-map aliasing (the library never writes to a map handed to it and does not retain it: every map is mutated by the harness right after the call) is checked on the implementation only; the immutable model cannot express aliasing")
 		ctx.Note("streams: main (delimiter-free non-empty keys whose sanitized forms stay distinct within one map), collide (delivered value is one of the candidates; not sent to the model), delims (F05b witnesses)")
 	}
